@@ -1,2 +1,4 @@
 import DtsVerif.AuditCmd
 import DtsVerif.Props.C15
+import DtsVerif.Props.C16
+import DtsVerif.Props.C20
